@@ -420,6 +420,7 @@ pub fn run_history(history: &History, cfg: &RunCfg, shim: &Shim) -> RunReport {
     }
 
     for (step, op) in history.ops.iter().enumerate() {
+        crate::watchdog::tick();
         if !model.enabled(op) {
             ctx.report.skipped += 1;
             if cfg.keep_event_log {
